@@ -205,6 +205,12 @@ class Scatterers(Scatterer):
 
         return new
 
+    @property
+    def bounds(self):
+        bounds = [s.bounds for s in self.scatterers]
+        return [(min(b[i][0] for b in bounds), max(b[i][1] for b in bounds))
+                for i in range(3)]
+
     def in_domain(self, points):
         ind = self.scatterers[0].contains(points).astype('int')
         for i, s in enumerate(self.scatterers[1:]):
